@@ -1,26 +1,37 @@
 (* Executable mirror of the per-state part of LRTable::calculate_reductions
-   (rustemo-compiler/src/table/mod.rs:758-908 in /repo, i.e. 755-905 before the
-   three lines of the verif hook were added) and of the priority bookkeeping of
-   LRState::group_per_next_symbol (279-297).
+   (rustemo-compiler/src/table/mod.rs, fn calculate_reductions, /repo HEAD 757ab19
+   i.e. after the fixes 3487517 and a50fbd6) and of the priority bookkeeping of
+   LRState::group_per_next_symbol.
 
    Every index / assert! / panic! of the Rust code is an explicit [MPanic site]
-   / [RPanic site] outcome, [site] being the line number in /repo's
-   table/mod.rs:
-     765  self.grammar.productions[item.prod]
-     774  state.actions[TermIndex(0)]
-     782  self.grammar.symbol_to_term(follow_symbol)
-     783  state.actions[follow_term.idx]
-     796  assert!(shifts.len() <= 1)
-     805  state.max_prior_for_term[&follow_term.idx]
-     821  assert!(actions.len() == 1)      (equal priority, associativity arm)
-     851  assert!(actions.len() == 1)      (production priority is greater)
-     867  self.grammar.productions[*prod]  (priority of an existing reduction)
-     869  panic!("This should not happen. Got {other:?}")
-     242  prod_rn_lengths[prod]            (rn_len stored in the item)
+   / [RPanic site] outcome with a symbolic site:
+     P_PROD        self.grammar.productions[item.prod]
+     P_CELL0       state.actions[TermIndex(0)]
+     P_TERM        self.grammar.symbol_to_term(follow_symbol)
+     P_CELL        state.actions[follow_term.idx]
+     P_SHIFTS      assert!(shifts.len() <= 1)
+     P_MAXPRIO     state.max_prior_for_term[&follow_term.idx]
+     P_RPROD       self.grammar.productions[*prod]  (priority of an existing reduction)
+     P_NOT_REDUCE  panic!("This should not happen. Got {other:?}")
+     P_RN          prod_rn_lengths[prod]            (rn_len stored in the item)
+   The two assert!(actions.len() == 1) of the original code are gone (a50fbd6): a
+   reduction that wins against the Shift/Accept now removes it with retain and goes
+   through the reduce/reduce step together with the reductions already in the cell.
    No proofs in this file. *)
 From RV Require Export Model.Table.
 
 Definition DEFAULT_PRIORITY : nat := 10.
+
+(* panic sites *)
+Definition P_PROD : nat := 1.
+Definition P_CELL0 : nat := 2.
+Definition P_TERM : nat := 3.
+Definition P_CELL : nat := 4.
+Definition P_SHIFTS : nat := 5.
+Definition P_MAXPRIO : nat := 6.
+Definition P_RPROD : nat := 7.
+Definition P_NOT_REDUCE : nat := 8.
+Definition P_RN : nat := 9.
 
 (* The three settings calculate_reductions reads. *)
 Record rsettings := mkRS {
@@ -86,7 +97,7 @@ Definition maxprio_of_items (g : grammar) (items : list item) : list (nat * nat)
   fold_left (maxprio_step g) items [].
 
 (* ------------------------------------------------------------------ *)
-(* The conflict resolution of one action cell (lines 784-904).          *)
+(* The conflict resolution of one action cell.                          *)
 
 (* match (&prod.assoc, &follow_term.assoc): the arms in source order *)
 Inductive arm := ArmReduce | ArmShift | ArmPrefer.
@@ -94,13 +105,13 @@ Inductive arm := ArmReduce | ArmShift | ArmPrefer.
 Definition assoc_arm (pa ta : assoc) : arm :=
   match pa, ta with
   | ALeft, ANone => ArmReduce
-  | _, ARight => ArmReduce
+  | _, ALeft => ArmReduce
   | ARight, ANone => ArmShift
-  | _, ALeft => ArmShift
+  | _, ARight => ArmShift
   | ANone, ANone => ArmPrefer
   end.
 
-(* priority the existing Shift / Accept competes with (lines 803-806) *)
+(* priority the existing Shift / Accept competes with *)
 Definition shift_prio (maxprio : list (nat * nat)) (a : nat) (shift : action) : option nat :=
   match shift with
   | Accept => Some DEFAULT_PRIORITY
@@ -110,21 +121,24 @@ Definition shift_prio (maxprio : list (nat * nat)) (a : nat) (shift : action) : 
 Definition rhs_is_empty (pr : prod) : bool :=
   match p_rhs pr with [] => true | _ => false end.
 
-(* lines 798-855: returns the cell after a possible pop and should_reduce *)
+(* actions.retain(|x| !matches!(x, Action::Shift(_) | Action::Accept)) *)
+Definition drop_shifts (acts : list action) : list action :=
+  filter (fun x => negb (is_shiftlike x)) acts.
+
+(* the shift/reduce part: returns the cell after a possible retain, and should_reduce *)
 Definition sr_step (cfg : rsettings) (pr : prod) (tm : term) (maxprio : list (nat * nat))
            (a : nat) (acts shifts : list action) : mres (list action * bool) :=
   match shifts with
   | [] => MDone (acts, true)
   | shift :: _ =>
       match shift_prio maxprio a shift with
-      | None => MPanic 805
+      | None => MPanic P_MAXPRIO
       | Some sprio =>
           match Nat.compare (p_prio pr) sprio with
           | Lt => MDone (acts, false)
           | Eq =>
               match assoc_arm (p_assoc pr) (t_assoc tm) with
-              | ArmReduce =>
-                  if length acts =? 1 then MDone (removelast acts, true) else MPanic 821
+              | ArmReduce => MDone (drop_shifts acts, true)
               | ArmShift => MDone (acts, false)
               | ArmPrefer =>
                   let empty := rhs_is_empty pr in
@@ -132,13 +146,12 @@ Definition sr_step (cfg : rsettings) (pr : prod) (tm : term) (maxprio : list (na
                   let prod_ps := negb empty && rs_prefer_shifts cfg && negb (p_nops pr) in
                   MDone (acts, negb (prod_pse || prod_ps))
               end
-          | Gt =>
-              if length acts =? 1 then MDone (removelast acts, true) else MPanic 851
+          | Gt => MDone (drop_shifts acts, true)
           end
       end
   end.
 
-(* lines 863-871 *)
+(* the priorities of the reductions already in the cell *)
 Fixpoint reduces_prio (g : grammar) (rs : list action) : mres (list nat) :=
   match rs with
   | [] => MDone []
@@ -146,18 +159,18 @@ Fixpoint reduces_prio (g : grammar) (rs : list action) : mres (list nat) :=
       match x with
       | Reduce q _ =>
           match get_prod g q with
-          | None => MPanic 867
+          | None => MPanic P_RPROD
           | Some qr =>
               match reduces_prio g rest with
               | MDone l => MDone (p_prio qr :: l)
               | MPanic s => MPanic s
               end
           end
-      | _ => MPanic 869
+      | _ => MPanic P_NOT_REDUCE
       end
   end.
 
-(* lines 857-903, entered when should_reduce *)
+(* the reduce/reduce part, entered when should_reduce *)
 Definition rr_step (g : grammar) (cfg : rsettings) (pr : prod) (new_reduce : action)
            (prod_len : nat) (acts reduces : list action) : mres (list action) :=
   match reduces with
@@ -183,17 +196,17 @@ Definition rr_step (g : grammar) (cfg : rsettings) (pr : prod) (new_reduce : act
 Definition add_reduce (g : grammar) (cfg : rsettings) (maxprio : list (nat * nat)) (a : nat)
            (p len prod_len : nat) (acts : list action) : mres (list action) :=
   match get_prod g p with
-  | None => MPanic 765
+  | None => MPanic P_PROD
   | Some pr =>
       match nth_error (g_terms g) a with
-      | None => MPanic 782
+      | None => MPanic P_TERM
       | Some tm =>
           let new_reduce := Reduce p len in
           match acts with
           | [] => MDone [new_reduce]
           | _ =>
               let '(shifts, reduces) := partition is_shiftlike acts in
-              if 1 <? length shifts then MPanic 796
+              if 1 <? length shifts then MPanic P_SHIFTS
               else
                 match sr_step cfg pr tm maxprio a acts shifts with
                 | MPanic s => MPanic s
@@ -223,10 +236,10 @@ Fixpoint apply_follows (g : grammar) (cfg : rsettings) (maxprio : list (nat * na
   | [] => RDone cells
   | f :: fs' =>
       match nth_error (g_terms g) f with
-      | None => RPanic 782
+      | None => RPanic P_TERM
       | Some _ =>
           match nth_error cells f with
-          | None => RPanic 783
+          | None => RPanic P_CELL
           | Some acts =>
               match add_reduce g cfg maxprio f p len prod_len acts with
               | MPanic s => RPanic s
@@ -242,7 +255,7 @@ Definition item_reducing (rn : option (list nat)) (it : item) (prod_len : nat) :
   | None => MDone (i_pos it =? prod_len)
   | Some l =>
       match nth_error l (i_prod it) with
-      | None => MPanic 242
+      | None => MPanic P_RN
       | Some r => MDone ((i_pos it =? prod_len) || (r <=? i_pos it))
       end
   end.
@@ -256,7 +269,7 @@ Fixpoint reduce_items (g : grammar) (cfg : rsettings) (rn : option (list nat))
   | [] => RDone cells
   | it :: rest =>
       match get_prod g (i_prod it) with
-      | None => RPanic 765
+      | None => RPanic P_PROD
       | Some pr =>
           let prod_len := length (p_rhs pr) in
           match item_reducing rn it prod_len with
@@ -266,7 +279,7 @@ Fixpoint reduce_items (g : grammar) (cfg : rsettings) (rn : option (list nat))
               if is_aug_lhs g (p_lhs pr) then
                 if i_pos it =? prod_len then
                   match cells with
-                  | [] => RPanic 774
+                  | [] => RPanic P_CELL0
                   | c0 :: cs => reduce_items g cfg rn maxprio rest ((c0 ++ [Accept]) :: cs)
                   end
                 else reduce_items g cfg rn maxprio rest cells
@@ -284,7 +297,7 @@ Definition calc_reductions_state (g : grammar) (cfg : rsettings) (rn : option (l
   reduce_items g cfg rn maxprio (s_items st) init.
 
 (* ------------------------------------------------------------------ *)
-(* The cells before calculate_reductions runs (calc_states, lines 563-606):
+(* The cells before calculate_reductions runs (calc_states):
    Accept pre-seeded when STOP literally follows a dot, then one Shift per
    terminal that follows a dot. The Shift target is not recomputed here: it is
    read off the real final cell (0 when the real cell holds no Shift any more,
@@ -344,11 +357,11 @@ Definition resolve_report (g : grammar) (cfg : rsettings) (T : table) : list nat
 Definition resolve_ok_b (g : grammar) (cfg : rsettings) (T : table) : bool :=
   forallb (fun c => c =? 0) (resolve_report g cfg T).
 
-(* When the real compiler panicked there is no dump of the table. The states, items and
-   lookaheads do not depend on priorities or associativities, so they are taken from the
-   dump [T0] of the same grammar text with the meta-data removed; the priorities come from
-   the (dumped) annotated grammar [g] through maxprio_of_items. First state, in state
-   order, on which the model panics, with the site. *)
+(* Should the real compiler panic in calculate_reductions there is no dump of the table.
+   The states, items and lookaheads do not depend on priorities or associativities, so
+   they can be taken from the dump [T0] of the same grammar text with the meta-data
+   removed; the priorities come from the (dumped) annotated grammar [g] through
+   maxprio_of_items. First state, in state order, on which the model panics, with the site. *)
 Fixpoint first_panic (g : grammar) (cfg : rsettings) (rn : option (list nat))
          (sts : list state) (idx : nat) : option (nat * nat) :=
   match sts with
